@@ -1,6 +1,6 @@
 (** C10 — mask recovery is keyed by the seed and never changes the verdict. *)
 From Coq Require Import List Arith NArith Bool.
-From BP Require Import Base.Field Model.Verifier Model.VerifyTop Proofs.MaskP Proofs.VerifyTopP.
+From BP Require Import Base.Field Model.Verifier Model.VerifyTop Proofs.MaskP Proofs.VerifyTopP Model.Prover Proofs.CompleteP Proofs.MaskFullP.
 Import ListNotations.
 
 (** Non-interference: the accept/reject verdict of a chunk and every scalar of its final check are the
@@ -35,3 +35,31 @@ Theorem C10_wrong_seed_delta : forall (K : Fld), FldOk K ->
   = fadd K r (fmul K delta (finv K (fmul K (fmul K e e) (fmul K (fmul K z z) (fmul K (fpow K y N) y))))).
 Proof. exact recover_one_wrong_seed. Qed.
 Print Assumptions C10_wrong_seed_delta.
+
+(** END TO END on the model: the prover takes its nonces from [nn] (seed-derived in the code), the
+    verifier queries ANOTHER oracle [other] (another seed): every recovered component is the blinding
+    factor plus an explicit combination of the nonce differences divided by e^2 z^2 y^(N+1) — it is the
+    true mask only if that combination vanishes (probability 1/l for independent oracle outputs: NOT a
+    theorem), and it never touches the verdict (C10_verdict_independent_of_seed_and_mode). *)
+Theorem C10_wrong_seed_end_to_end : forall (K : Fld), FldOk K -> forall (M : Mod K), ModOk K M -> forall (g : gens K M)
+  bits cap (v : N) (p : option N) (r : list K) (nn : nonces K) (ch : pchals K) (other : nlabel -> option nat -> nat -> K),
+  let T := length (g_Gb g) in
+  (1 <= bits)%nat -> (1 <= cap)%nat ->
+  length (g_G g) = (bits * cap)%nat -> length (g_Hv g) = (bits * cap)%nat ->
+  (1 * bits)%nat = (2 ^ length (pc_es ch))%nat ->
+  pc_y ch <> f0 K -> pc_z ch <> f0 K -> pc_e ch <> f0 K -> Forall (fun e => e <> f0 K) (pc_es ch) ->
+  length r = T -> wf_nonces K T (length (pc_es ch)) nn ->
+  let pf := prove_core K M bits cap g [v] [p] [r] nn ch in
+  let y := pc_y ch in let z := pc_z ch in let e := pc_e ch in let es := pc_es ch in
+  let esq := map (fun c => fmul K c c) es in
+  let esq_inv := map (fun c => fmul K c c) (map (finv K) es) in
+  forall k, (k < T)%nat ->
+  nth k (recover_mask K other bits 1 T (mkVproof K (pp_d1 pf) (pp_r1 pf) (pp_s1 pf)) (mkChals K y z es e)) (f0 K)
+  = fadd K (nth k r (f0 K))
+      (fmul K
+        (fadd K (fadd K (fsub K (nonce_fn K nn NEta None k) (other NEta None k)) (fmul K (fsub K (nonce_fn K nn Nd None k) (other Nd None k)) e))
+                (fmul K (fadd K (fsub K (nonce_fn K nn NAlpha None k) (other NAlpha None k))
+                                (fsub K (round_sum K (nonce_fn K nn) k 0 esq esq_inv) (round_sum K other k 0 esq esq_inv))) (fmul K e e)))
+        (finv K (fmul K (fmul K e e) (fmul K (fmul K z z) (fmul K (fpow K y (1 * bits)) y))))).
+Proof. exact prover_mask_wrong_oracle. Qed.
+Print Assumptions C10_wrong_seed_end_to_end.
